@@ -28,6 +28,7 @@ func checkC11(c *Ctx) {
 		"K6 Close: CAS success dominates conn.Close, close(c.done), wg.Wait in that order; wg.Add dominates the go; the receive loop defers wg.Done and returns on any ReadFrom error",
 		"K7 id reuse: every path through cancel looks the entry up under the lock and deletes it when it is present and is the call's own",
 		"K9 cancel removes only the entry this call registered: the delete is guarded by an identity test against the channels/entry created in send",
+		"C10-K1/K2/K7 (shared) the receive loop delivers each accepted datagram as a message of its own (decoder receives b[:n] of a buffer allocated per datagram; the decoded message does not alias it)",
 		"C10-K5 (shared) lock discipline: pendingMu is released at every return of every function that acquires it, never acquired twice, and every access to the pending map holds it",
 		"C12-K1 (shared) retry driver: only the internal per-try deadline error leads to another try; every other result of a try — the context's error, ErrNoResponse after Close, a write error — is returned at once")
 	r.NotDecided = append(r.NotDecided, "wall-clock bounds and goroutine scheduling", "a PacketConn whose Close does not unblock ReadFrom")
@@ -39,6 +40,10 @@ func checkC11(c *Ctx) {
 			continue
 		}
 		r.Count("C11-clients", 1)
+		// "with the response as soon as an acceptable one arrives": the receive loop delivers every datagram that passes the
+		// filters, as a message that is its own (fresh buffer per datagram, no aliasing of it) — C10-K1/K2/K7. (First: the
+		// symbolic expressions of the loop are memoised top-down here, as in C10.)
+		c10RecvLoop(c, a)
 		c11Wait(c, a)
 		c11Cancel(c, a)
 		c11Blocking(c, a)
@@ -557,11 +562,27 @@ func c11Blocking(c *Ctx, a *clientAnchors) {
 					blocking, what = true, "select"
 					if f == a.recvLoop || (a.deliverFn != nil && f == a.deliverFn) {
 						// allowed: the delivery select (judged in C10-K1 to wait on the entry's done)
+						// allowed: THE delivery select — a send to the channel of the looked-up transaction entry plus a receive
+						// on that entry's done (the owner's cancel closes it, so the wait ends with the call); a select that
+						// sends anywhere else waits on somebody who may never read
+						toEntry, onEntryDone := false, false
 						for _, s := range x.States {
-							if s.Dir == types.SendOnly {
-								r.OK("C11-K5", shortName(f)+": delivery select is the only blocking operation under the lock", c.P.ipos(in), "allowed by rule (has a case on the entry's done, C10-K1)", "")
-								return
+							cs := c.Sx().Of(s.Chan).String()
+							viaEntry := strings.Contains(cs, "lookup(field[pending](") || (a.deliverFn != nil && f == a.deliverFn && strings.Contains(cs, "param("))
+							if s.Dir == types.SendOnly && viaEntry {
+								toEntry = true
 							}
+							if s.Dir == types.SendOnly && !viaEntry {
+								toEntry, onEntryDone = false, false
+								break
+							}
+							if s.Dir == types.RecvOnly && viaEntry {
+								onEntryDone = true
+							}
+						}
+						if toEntry && onEntryDone {
+							r.OK("C11-K5", shortName(f)+": delivery select is the only blocking operation under the lock", c.P.ipos(in), "allowed by rule (send to the entry's channel, receive on the entry's done, C10-K1)", "")
+							return
 						}
 					}
 				}
